@@ -55,7 +55,9 @@ template<typename S>
 CastT<S, G> BSpline<K, G>::operator()(const S & t, OptTangent<CastT<S, G>> vel, OptTangent<CastT<S, G>> acc) const
 {
   // index of relevant interval
-  int64_t istar = static_cast<int64_t>((static_cast<double>(t) - m_t0) / m_dt);
+  // clamp before converting: the quotient may exceed the range of int64_t far outside [t_min, t_max]
+  int64_t istar = static_cast<int64_t>(
+    std::clamp<double>((static_cast<double>(t) - m_t0) / m_dt, -1., static_cast<double>(m_ctrl_pts.size())));
 
   S u;
   // clamp to end of range if necessary
